@@ -69,4 +69,54 @@ def apart : List Bytes → List Bytes → Json → Bool
     | _, _ => false
   | _, _, _ => false
 
+/-! ### tagged objects -/
+
+mutual
+/-- every `"@id"` member of a document that has an indexable value: where its object sits
+    (keys and decimal array indices from the document root) and the text it is indexed under -/
+def taggedJ : Json → List (List Bytes × Bytes)
+  | .obj kvs => taggedO kvs
+  | .arr xs => taggedL xs 0
+  | _ => []
+def taggedO : Obj → List (List Bytes × Bytes)
+  | [] => []
+  | (k, v) :: r =>
+    if k = idKey then
+      (match idText v with
+        | some t => [([], t)]
+        | none => []) ++ taggedO r
+    else (taggedJ v).map (fun e => (k :: e.1, e.2)) ++ taggedO r
+def taggedL : List Json → Nat → List (List Bytes × Bytes)
+  | [], _ => []
+  | x :: xs, i => (taggedJ x).map (fun e => (natDigits i :: e.1, e.2)) ++ taggedL xs (i + 1)
+end
+
+mutual
+/-- representation invariant of a Go map: no key twice -/
+def uniqueKeys : Json → Bool
+  | .arr xs => uniqueKeysL xs
+  | .obj kvs => uniqueKeysO kvs
+  | _ => true
+def uniqueKeysL : List Json → Bool
+  | [] => true
+  | x :: xs => uniqueKeys x && uniqueKeysL xs
+def uniqueKeysO : Obj → Bool
+  | [] => true
+  | (k, v) :: r => (lookup k r).isNone && uniqueKeys v && uniqueKeysO r
+end
+
+mutual
+/-- every array index fits Go's `int` (so that `strconv.Atoi(strconv.Itoa(i)) == i`) -/
+def shortArrays : Json → Bool
+  | .arr xs => decide (xs.length ≤ 9223372036854775807) && shortArraysL xs
+  | .obj kvs => shortArraysO kvs
+  | _ => true
+def shortArraysL : List Json → Bool
+  | [] => true
+  | x :: xs => shortArrays x && shortArraysL xs
+def shortArraysO : Obj → Bool
+  | [] => true
+  | (_, v) :: r => shortArrays v && shortArraysO r
+end
+
 end CaddyModel.C12
